@@ -3,7 +3,6 @@ import MythVerif.Proofs.WsQueueTsoTac
 namespace MythVerif.WsqTso
 open MythVerif.Wsq
 
-set_option maxHeartbeats 4000000 in
 theorem t_vk1 (s s' : St) (p : Pid) : Inv s → s.tpc p = .vk1 → stepT s p = some s' → Inv s' := by
   intro h heq hs
   have hb := h.tbufE p (by simp [heq, mayBuf])
@@ -11,7 +10,6 @@ theorem t_vk1 (s s' : St) (p : Pid) : Inv s → s.tpc p = .vk1 → stepT s p = s
   simp at hs; subst hs
   tso_fastT h p []
 
-set_option maxHeartbeats 4000000 in
 theorem t_vkf (s s' : St) (p : Pid) (b) : Inv s → s.tpc p = .vkf b → stepT s p = some s' → Inv s' := by
   intro h heq hs
   have hcfg := h.cfg
@@ -23,7 +21,6 @@ theorem t_vkf (s s' : St) (p : Pid) (b) : Inv s → s.tpc p = .vkf b → stepT s
     tso_fastT h p [vkf]
   · simp at hs
 
-set_option maxHeartbeats 4000000 in
 theorem t_vk2 (s s' : St) (p : Pid) (b) : Inv s → s.tpc p = .vk2 b → stepT s p = some s' → Inv s' := by
   intro h heq hs
   have hb := h.tbufE p (by simp [heq, mayBuf])
@@ -32,7 +29,6 @@ theorem t_vk2 (s s' : St) (p : Pid) (b) : Inv s → s.tpc p = .vk2 b → stepT s
   all_goals (simp at hs; subst hs)
   all_goals tso_fastT h p [vk2]
 
-set_option maxHeartbeats 4000000 in
 theorem t_vk3 (s s' : St) (p : Pid) (b) : Inv s → s.tpc p = .vk3 b → stepT s p = some s' → Inv s' := by
   intro h heq hs
   have hb := h.tbufE p (by simp [heq, mayBuf])
